@@ -3,10 +3,11 @@ import json, glob, os, re
 rows = []
 for f in sorted(glob.glob(os.path.join(os.path.dirname(__file__), "..", "seeded", "*", "meta.json"))):
     m = json.load(open(f)); sid = os.path.basename(os.path.dirname(f))
+    kind = m.get("kind", "breaking")
     summ = re.sub(r"\s+", " ", m.get("summary", ""))
     summ = summ[:230] + ("…" if len(summ) > 230 else "")
     if "checks" in m: det = "; ".join(f"{c}: {v}" for c, v in m["checks"].items())
     else: det = f"{m.get('checks_run', '')}: {m.get('verdict', '')}" + (f" — {m['verdict_update']}" if m.get("verdict_update") else "")
     files = ", ".join(os.path.basename(x) for x in m.get("files", []))
-    rows.append(f"| {sid} | {files} | {summ} | {det} |")
-print("| seeded change | file(s) | what it breaks | reported by |\n|---|---|---|---|\n" + "\n".join(rows))
+    rows.append(f"| {sid} | {kind} | {files} | {summ} | {det} |")
+print("| seeded change | kind | file(s) | what it changes | reported by |\n|---|---|---|---|---|\n" + "\n".join(rows))
